@@ -29,6 +29,9 @@ def norm(s):
 
 
 def anchors(a: Anchors):
+    a.state("molecules_store_only_pos_rot_features", "acryo/molecules/core.py",
+            {"Molecules": ["_pos", "_rotator", "_features", "features", "class:groupby"]},
+            "a Molecules object stores positions, rotator and feature table and nothing derived from them (no memo that could go stale)")
     for ax in "xyz":
         a.raw(f"axis_{ax}_literal", MC, f"Molecules.{ax}", "unit vector fed to the rotator",
               lambda fn, src, ax=ax: f"Definition axis_{ax}_literal : Z * Z * Z := ({', '.join(str(v) + '%Z' for v in _axis_literal(fn))}).")
